@@ -35,10 +35,16 @@ pub enum Op {
     Tick3,
     MpInsertAfterA,
     MpInsertBeforeA,
+    FinishClearB,
+    DropB,
 }
 
 pub struct C18 {
     pub multi: bool,
+    /// 0: two undrawn bars; 1: bottom alignment, three drawn bars, a finished visibly, b finished and
+    /// cleared but not redrawn since (padding pending); 2: three drawn bars, the middle one dropped
+    /// (a deferred zombie); 3: bottom alignment, three drawn bars
+    pub root: u8,
 }
 
 struct World {
@@ -59,7 +65,13 @@ struct Obs {
 
 impl C18 {
     fn config(&self) -> String {
-        if self.multi { "two-bar MultiProgress".into() } else { "single bar".into() }
+        match (self.multi, self.root) {
+            (false, _) => "single bar".into(),
+            (true, 0) => "two-bar MultiProgress".into(),
+            (true, 1) => "bottom-aligned MultiProgress: a finished, b finished-and-cleared, c live".into(),
+            (true, 2) => "three-bar MultiProgress whose middle bar was dropped (deferred zombie)".into(),
+            (true, _) => "bottom-aligned three-bar MultiProgress".into(),
+        }
     }
 
     fn build(&self, fault: Fault) -> World {
@@ -69,9 +81,36 @@ impl C18 {
         let mk = |t: ProgressDrawTarget| ProgressBar::with_draw_target(Some(5), t).with_style(style(2));
         if self.multi {
             let mp = MultiProgress::with_draw_target(ProgressDrawTarget::term_like(spy.boxed()));
+            if self.root == 1 || self.root == 3 {
+                mp.set_alignment(indicatif::MultiProgressAlignment::Bottom);
+            }
             let a = mp.add(mk(ProgressDrawTarget::hidden()).with_prefix("a"));
             let b = mp.add(mk(ProgressDrawTarget::hidden()).with_prefix("b"));
-            World { spy, mp: Some(mp), a: Some(a), b: Some(b), extra: vec![] }
+            let mut w = World { spy, mp: Some(mp), a: Some(a), b: Some(b), extra: vec![] };
+            if self.root != 0 {
+                // the root history runs fault-free; fault indices count from the end of it
+                w.spy.st().fault = Fault::None;
+                let c = w.mp.as_ref().unwrap().add(mk(ProgressDrawTarget::hidden()).with_prefix("c"));
+                w.a.as_ref().unwrap().tick();
+                w.b.as_ref().unwrap().tick();
+                c.tick();
+                match self.root {
+                    1 => {
+                        w.a.as_ref().unwrap().finish();
+                        w.b.as_ref().unwrap().finish_and_clear();
+                        w.extra.push(c);
+                    }
+                    2 => {
+                        // the handle called "b" by the operations is the third bar from here on
+                        w.b = Some(c);
+                    }
+                    _ => w.extra.push(c),
+                }
+                let mut st = w.spy.st();
+                st.fallible_calls = 0;
+                st.fault = fault;
+            }
+            w
         } else {
             let a = mk(ProgressDrawTarget::term_like(spy.boxed())).with_prefix("a");
             World { spy, mp: None, a: Some(a), b: None, extra: vec![] }
@@ -104,6 +143,8 @@ impl C18 {
                     Op::Abandon => a.map(|a| a.abandon_with_message("ab")).unwrap_or(()),
                     Op::DropA => w.a = None,
                     Op::TickB => w.b.as_ref().map(|b| b.tick()).unwrap_or(()),
+                    Op::FinishClearB => w.b.as_ref().map(|b| b.finish_and_clear()).unwrap_or(()),
+                    Op::DropB => w.b = None,
                     Op::MpPrintln => result = Some(w.mp.as_ref().unwrap().println("L").is_err()),
                     Op::MpClear => result = Some(w.mp.as_ref().unwrap().clear().is_err()),
                     Op::MpSuspend => w.mp.as_ref().unwrap().suspend(|| ()),
@@ -177,10 +218,22 @@ impl C18 {
                 let _ = mp.println("epilogue");
                 let _ = mp.clear();
             }
-            drop(std::mem::ManuallyDrop::into_inner(w));
+            w
         });
-        if let Err(p) = e {
-            epilogue = Some(p);
+        match e {
+            Err(p) => epilogue = Some(p),
+            Ok(w) => {
+                // drop every handle on its own: a destructor that panics must not take the others with it
+                let World { mp, a, b, extra, .. } = std::mem::ManuallyDrop::into_inner(w);
+                let parts: Vec<(&str, Box<dyn FnOnce()>)> = vec![("bar a", Box::new(move || drop(a))), ("bar b", Box::new(move || drop(b))), ("the added bars", Box::new(move || drop(extra))), ("the MultiProgress", Box::new(move || drop(mp)))];
+                for (name, part) in parts {
+                    if epilogue.is_some() {
+                        std::mem::forget(part);
+                    } else if let Err(p) = catch(part) {
+                        epilogue = Some(format!("dropping {name}: {p}"));
+                    }
+                }
+            }
         }
         let st = spy.st();
         (obs, panic, epilogue, st.fallible_calls, st.faults_injected)
@@ -197,7 +250,10 @@ impl Hist for C18 {
         }
         v.push(Op::Tick3);
         if self.multi {
-            v.extend([Op::TickB, Op::MpPrintln, Op::MpClear, Op::MpSuspend, Op::MpRemoveA, Op::MpAdd, Op::MpSetTarget]);
+            v.extend([Op::TickB, Op::MpPrintln, Op::MpClear, Op::MpSuspend, Op::MpRemoveA, Op::MpAdd, Op::MpSetTarget, Op::FinishClearB]);
+            if !prefix.contains(&Op::DropB) {
+                v.push(Op::DropB);
+            }
             // inserting relative to a bar that is no longer a member is a caller error
             if !prefix.contains(&Op::MpRemoveA) && !prefix.contains(&Op::DropA) {
                 v.extend([Op::MpInsertAfterA, Op::MpInsertBeforeA]);
@@ -269,7 +325,8 @@ impl Hist for C18 {
 
 fn configs(tier: Tier) -> Vec<(C18, usize)> {
     let d = if tier == Tier::Quick { 2 } else { 4 };
-    vec![(C18 { multi: false }, d + 1), (C18 { multi: true }, d)]
+    let d2 = if tier == Tier::Quick { 2 } else { 3 };
+    vec![(C18 { multi: false, root: 0 }, d + 1), (C18 { multi: true, root: 0 }, d), (C18 { multi: true, root: 1 }, d2), (C18 { multi: true, root: 2 }, d2), (C18 { multi: true, root: 3 }, d2)]
 }
 
 pub fn run(tier: Tier, shard: Shard, stats: &mut Stats) {
@@ -280,11 +337,12 @@ pub fn run(tier: Tier, shard: Shard, stats: &mut Stats) {
 
 pub fn meta(tier: Tier) -> Meta {
     let d = if tier == Tier::Quick { 2 } else { 4 };
+    let d2 = if tier == Tier::Quick { 2 } else { 3 };
     Meta {
         level: "fault_enumeration",
-        rule: format!("every history of <= {} operations on a single bar (14 operations) and <= {d} on a two-bar MultiProgress (20 operations incl. println/clear/suspend/remove/add/set_draw_target) is first run fault-free to count its N fallible terminal calls; then it is re-run for every k < N with the k-th call failing once, and with the k-th and all later calls failing; oracle: no call unwinds, io::Result-returning calls report exactly the injected failures, getters equal the fault-free run after every operation, and a fixed epilogue (tick, inc, getters, sibling tick, mp.println, mp.clear, drop all) completes; distinct = (history, N); non-trivial = N > 0", d + 1),
+        rule: format!("every history of <= {} operations on a single bar (14 operations) and <= {d} on a two-bar MultiProgress (24 operations incl. println/clear/suspend/remove/add/insert/set_draw_target and finish/drop of the sibling), plus histories of <= {d2} operations from three further MultiProgress roots (bottom alignment with padding pending, a deferred zombie in the middle, bottom alignment with three live bars), is first run fault-free to count its N fallible terminal calls; then it is re-run for every k < N with the k-th call failing once, and with the k-th and all later calls failing; oracle: no call unwinds, io::Result-returning calls report exactly the injected failures, getters equal the fault-free run after every operation, and a fixed epilogue (tick, inc, getters, sibling tick, mp.println, mp.clear, drop all) completes; distinct = (history, N); non-trivial = N > 0", d + 1),
         assumptions: vec!["a failing terminal call has no effect on the terminal and returns io::ErrorKind::Other".into(), "one fault episode per execution (once, or from then on)".into()],
-        bounds: json!({"depth_single": d + 1, "depth_multi": d}),
+        bounds: json!({"depth_single": d + 1, "depth_multi": d, "depth_multi_other_roots": d2}),
         exhaustive: true,
     }
 }
